@@ -47,9 +47,14 @@ def configs(tier, seed=0):
         out.append({'key': 'legacy/probe/%s' % g, 'kind': 'legacy-probe', 'graph': g, 'sweeps': 2})
         out.append({'key': 'legacy/probe/%s/warmup1' % g, 'kind': 'legacy-probe', 'graph': g, 'sweeps': 2, 'warmup': 1})
         out.append({'key': 'legacy/probe/%s/sample1+sample2' % g, 'kind': 'legacy-probe', 'graph': g, 'sweeps': 1, 'second': 2})
+        out.append({'key': 'legacy/probe/%s/warmup1+sample1+sample2' % g, 'kind': 'legacy-probe', 'graph': g, 'sweeps': 1, 'second': 2, 'warmup': 1})
     for g in ['pair', 'chain3']:
         for which in [0, 1]:
             out.append({'key': 'exp/mh-block/%s/block%d' % (g, which), 'kind': 'exp-mh', 'graph': g, 'mh_block': which, 'sweeps': 2, 'max_paths': 800})
+            if g == 'pair':
+                # two MH transitions per sweep (accept-then-reject and the other orders)
+                out.append({'key': 'exp/mh-block/%s/block%d/two-transitions' % (g, which), 'kind': 'exp-mh', 'graph': g, 'mh_block': which, 'sweeps': 1 if tier == 'quick' else 2, 'mh_steps': 2,
+                            'max_paths': 1500})
     return out
 
 
@@ -225,7 +230,8 @@ def run_legacy_probe(cfg, c):
 
 
 def run_exp_mh(cfg, c):
-    """A real MH block inside the sweep: its transition must be a Metropolis step for the CURRENT conditional."""
+    """A real MH block inside the sweep (1 or 2 transitions per sweep): every transition must be a Metropolis step for the CURRENT conditional,
+    and the value handed to the following blocks / stored for the sweep is the block sampler's current point."""
     import cuqi
     dt = object if not c.concrete else float
     c.rand_open_interval = True
@@ -235,22 +241,33 @@ def run_exp_mh(cfg, c):
     Probe = make_probe_class(c, LOG)
     init = {n: c.reals('init_%s' % n, 1) for n in order}
     mh_name = ['v%d' % cfg['mh_block']][0]
+    nsteps = cfg.get('mh_steps', 1)
     strategy = {}
     for n in order:
         if n == mh_name:
             strategy[n] = cuqi.experimental.mcmc.MH(scale=0.5, initial_point=init[n])
         else:
             strategy[n] = Probe(n, initial_point=init[n])
-    G = cuqi.experimental.mcmc.HybridGibbs(J, strategy)
+    G = cuqi.experimental.mcmc.HybridGibbs(J, strategy, num_sampling_steps=({mh_name: nsteps} if nsteps != 1 else None))
     cur = {n: np.asarray(init[n], dtype=dt).ravel() for n in order}
     mh = strategy[mh_name]
+    inner = []
+    orig_step = mh.step
+
+    def spy():
+        pre = np.array(mh.current_point, dtype=dt).ravel().copy()
+        n0 = len(c.draws)
+        acc = orig_step()
+        inner.append({'pre': pre, 'post': np.array(mh.current_point, dtype=dt).ravel().copy(), 'n0': n0, 'n1': len(c.draws), 'logd': mh.current_target_logd})
+        return acc
+    mh.step = spy
     for t in range(cfg['sweeps']):
-        nd0 = len(c.draws)
         nl0 = len(LOG)
+        ni0 = len(inner)
         before = dict(cur)
         G.step()
-        # values of the other blocks at the moment the MH block was updated
-        newvals = {r[1]: np.asarray(r[5], dtype=dt).ravel() for r in LOG[nl0:] if r[0] == 'step'}
+        recs = [r for r in LOG[nl0:] if r[0] == 'step']
+        newvals = {r[1]: np.asarray(r[5], dtype=dt).ravel() for r in recs}
         env = {}
         for n in order:
             if n == mh_name:
@@ -259,23 +276,46 @@ def run_exp_mh(cfg, c):
         for n in order:
             if n not in env and n != mh_name:
                 env[n] = before[n]
-        draws = c.draws[nd0:]
-        xi = np.asarray([d_ for d_ in draws if d_['kind'].startswith('normal')][0]['value'], dtype=dt).ravel()
-        u = [d_ for d_ in draws if d_['kind'] in ('rand', 'uniform')][0]['value']
-        x = before[mh_name]
-        xs = x + 0.5 * xi
         Tc = lambda z: ref(dict(env, **{mh_name: z}))
-        logalpha = Tc(xs) - Tc(x)
-        la = core.If(logalpha < 0, logalpha, 0.0) if core.is_sym(logalpha) else min(0.0, logalpha)
-        logu = mc.log_u(c, u)
-        newx = np.asarray(G.current_samples[mh_name], dtype=dt).ravel()
-        accepted = bool(core.all_eq(newx, xs)) if not c.concrete else bool(np.allclose(newx, xs))
-        if accepted:
-            c.prove('sweep %d: MH block accepted => log u <= log alpha for the CURRENT conditional' % t, logu <= la, info=fk(cfg, 'mh-accept-sound'))
-        else:
-            c.prove_close('sweep %d: MH block rejected => state unchanged' % t, newx, x, info=fk(cfg, 'mh-reject-state'))
-            c.prove('sweep %d: MH block rejected => not (log u < log alpha) for the CURRENT conditional' % t, core.Not(logu < la), info=fk(cfg, 'mh-accept-complete'))
-        c.prove_close('sweep %d: cached log-density of the MH block belongs to its current point and current conditional' % t,
-                      mh.current_target_logd, Tc(newx), info=fk(cfg, 'mh-cache'))
+        steps = inner[ni0:]
+        c.prove('sweep %d: the MH block makes the configured number of transitions' % t, len(steps) == nsteps, info=fk(cfg, 'mh-steps'))
+        x = before[mh_name]
+        for i, st in enumerate(steps):
+            draws = c.draws[st['n0']:st['n1']]
+            xi = np.asarray([d_ for d_ in draws if d_['kind'].startswith('normal')][0]['value'], dtype=dt).ravel()
+            u = [d_ for d_ in draws if d_['kind'] in ('rand', 'uniform')][0]['value']
+            c.prove_close('sweep %d transition %d: starts from the block\'s current point' % (t, i), st['pre'], x, info=fk(cfg, 'mh-start'))
+            xs = x + 0.5 * xi
+            logalpha = Tc(xs) - Tc(x)
+            la = core.If(logalpha < 0, logalpha, 0.0) if core.is_sym(logalpha) else min(0.0, logalpha)
+            logu = mc.log_u(c, u)
+            newx = st['post']
+            accepted = bool(core.all_eq(newx, xs)) if not c.concrete else bool(np.allclose(newx, xs))
+            if accepted:
+                c.prove('sweep %d: MH block accepted => log u <= log alpha for the CURRENT conditional' % t, logu <= la, info=fk(cfg, 'mh-accept-sound'))
+            else:
+                c.prove_close('sweep %d: MH block rejected => state unchanged' % t, newx, x, info=fk(cfg, 'mh-reject-state'))
+                c.prove('sweep %d: MH block rejected => not (log u < log alpha) for the CURRENT conditional' % t, core.Not(logu < la), info=fk(cfg, 'mh-accept-complete'))
+            c.prove_close('sweep %d: cached log-density of the MH block belongs to its current point and current conditional' % t,
+                          st['logd'], Tc(newx), info=fk(cfg, 'mh-cache'))
+            x = newx
+        # hand-over: the sweep's value of the block is the sampler's current point after its last transition
+        c.prove_close('sweep %d: value handed over by the MH block = its sampler\'s current point' % t, np.asarray(G.current_samples[mh_name], dtype=dt).ravel(), x, info=fk(cfg, 'mh-handover'))
+        # blocks updated after the MH block in this sweep are conditioned on that value
+        seen_mh = False
+        env2 = dict(before)
+        for n in order:
+            if n == mh_name:
+                seen_mh = True
+                env2[n] = x
+                continue
+            rec = [r for r in recs if r[1] == n]
+            if rec:
+                if seen_mh:
+                    z, val = rec[0][2], rec[0][3]
+                    full = dict(env2)
+                    full[n] = np.array([z], dtype=dt)
+                    c.prove_close('sweep %d block %s (after the MH block): target = joint conditioned on the MH block\'s new value' % (t, n), val, ref(full), tol=1e-9, info=fk(cfg, 'after-mh-conditional'))
+                env2[n] = np.asarray(rec[-1][5], dtype=dt).ravel()
         for n in order:
             cur[n] = np.asarray(G.current_samples[n], dtype=dt).ravel()
